@@ -449,6 +449,37 @@ func vpH_C02_empty_items() {
 	vpReach("end")
 }
 
+// strings longer than the symbolic ones with the characters the escaper treats specially (line and
+// paragraph separators, astral code points, control characters, escape look-alikes) at every position
+var vpC02Fixed = []string{"a\u2028b\u2029c", "x\U0001F600y", "q\"r\\s", "nl\ncr\rtab\t", "\x01\x1f\x7f", "\\u0041\\n", "</script><!--", "\u00e9\u20ac"}
+
+func vpH_C02_fixed_strings() {
+	c := vpC02Cases[vpChoice(len(vpC02Cases))]
+	s := vpC02Fixed[vpChoice(len(vpC02Fixed))]
+	x, path, names := c.build(s)
+	if len(path) > 0 && path[len(path)-1] == "\x00tag" {
+		vpReach("end")
+		return
+	}
+	b, err := vpMarshalItem(x)
+	vpAssert("fixed/no-error/"+c.name, err == nil && len(b) > 0)
+	doc, _ := vpParseJSON(b)
+	vpAssert("fixed/valid-json/"+c.name, doc != nil && doc.kind == 'o')
+	if doc == nil || doc.kind != 'o' {
+		vpReach("end")
+		return
+	}
+	for _, got := range doc.memberNames() {
+		vpAssert("fixed/no-injected-member/"+c.name, vpHasName(names, got))
+	}
+	m := vpC02Walk(doc, path)
+	vpAssert("fixed/member-is-string/"+c.name, m != nil && m.kind == 's')
+	if m != nil && m.kind == 's' {
+		vpAssert("fixed/string-decodes-to-original/"+c.name, vpBytesEq(m.str, []byte(vpC02Prefixes[c.name]+s)))
+	}
+	vpReach("end")
+}
+
 func vpW_C02_twin() {
 	x := &Object{ID: IRI(vpBytes(1)), Type: NoteType}
 	b, _ := x.MarshalJSON()
